@@ -132,4 +132,42 @@ def pushAll (live : List LDep) : RState → List (Nat × GKey) → RState
   | st, (c, k) :: rest =>
     pushAll live (addGroup st c k (live.filter (fun x => x.d.child == c && x.d.key == k))) rest
 
+/-! ### `Checkable::IsReachable` as the code evaluates it: through the group objects of the registry -/
+
+/-- `GetDependencyGroups()` of `v` (checkable-dependency.cpp:153-163): the entries of its
+    `m_DependencyGroups`, key and group (identity). -/
+def groupsOf (st : RState) (v : Nat) : List (GKey × Ident) :=
+  (st.cmap.filter (fun e => e.1.1 == v)).map (fun e => (e.1.2, e.2))
+
+/-- `DependencyGroup::IsRedundancyGroup()` (dependency.hpp:148-151): `!m_RedundancyGroupName.IsEmpty()` —
+    decided by the GROUP's name, not by the key the checkable stores it under. -/
+def identIsRedundancy (i : Ident) : Bool := !(i.1 == "")
+
+/-- `dependencyGroup->GetDependenciesForChild(v)` (dependency-group.cpp:267-279) for a group the registry
+    holds under identity `i`; `eff` supplies what is not part of the object's identity (whether its period is
+    closed right now, `Cfg.eff`). -/
+def groupDepsR (st : RState) (eff : Dep → Dep) (v : Nat) (i : Ident) : List Dep :=
+  ((membersOf st.registry i).filter (fun x => x.d.child == v)).map (fun x => eff x.d)
+
+/-- one level of `IsReachable` (checkable-dependency.cpp:198-218): host test, then every group object the
+    checkable holds is asked `GetState(this, dt, rstack + 1)` (dependency-group.cpp:309-348). -/
+def reachStepR (st : RState) (node : Nat → Node) (eff : Dep → Dep) (dt : Aspect) (reach : Nat → Bool) (v : Nat) : Bool :=
+  !hostHardDown { node := node, deps := [] } dt v &&
+  (groupsOf st v).all (fun e =>
+    groupState reach (available { node := node, deps := [] } dt) (identIsRedundancy e.2) (groupDepsR st eff v e.2) == .ok)
+
+def reachableR (st : RState) (node : Nat → Node) (eff : Dep → Dep) (dt : Aspect) : Nat → Nat → Bool
+  | 0, _ => false
+  | fuel + 1, v => reachStepR st node eff dt (reachableR st node eff dt fuel) v
+
+/-- `checkable->IsReachable(dt)` evaluated on the registry state (rstack = 0). -/
+def isReachableR (st : RState) (node : Nat → Node) (eff : Dep → Dep) (dt : Aspect) (v : Nat) : Bool :=
+  reachableR st node eff dt topFuel v
+
+/-- `Checkable::GetParents()` (checkable-dependency.cpp:250-258) as the code computes it: every group object the
+    checkable holds contributes the parents named by ALL composite keys of its `m_Members`
+    (`DependencyGroup::LoadParents`, dependency-group.cpp:139-144) — keys, not this child's dependencies. -/
+def parentsR (st : RState) (v : Nat) : List Nat :=
+  (groupsOf st v).flatMap (fun e => e.2.2.map (·.1))
+
 end Icinga.C07
